@@ -1,5 +1,6 @@
 import FordModel.Proto
 import FordModel.Use
+import FordModel.UseBind
 namespace Ford
 open Proto Use
 
@@ -63,6 +64,25 @@ def nestedOf (all : List Scope) (spec : Str) : List Nested :=
     | [r, h, n] => (all.find? (fun s => s.name == n)).map (fun s => { root := r, host := h, scope := s })
     | _ => none)
 
+/-- as `showState`, names in the lower-case form the harness observes FORD's objects in -/
+def showStateL (g : List Scope) (k : Nat) (st : State) : List Str :=
+  g.map (fun m =>
+    let t := getTabs st m.name
+    let low : Table → Table := fun tb => tb.map (fun p => (p.1, (lower p.2.1, p.2.2)))
+    showNat k ++ ['|'] ++ lower m.name ++ ['|'] ++ showTable (low t.all) ++ ['|'] ++ showTable (low t.pub))
+
+/-- `root:host:name[:i]` entries; `:i` marks the body of an interface block.  Such a body starts from
+    the tables of the interface object, which ALIAS its host's `all_procs`, `all_absinterfaces` and
+    `all_types` but has no `all_vars` (`getattr(self.parent, "all_vars", {})`): for the variable
+    tables (k = 3) the host is a name no scope has, i.e. the empty table. -/
+def nestedOfK (all : List Scope) (spec : Str) (k : Nat) : List Nested :=
+  (words spec).filterMap (fun w =>
+    match splitCh ':' w [] with
+    | [r, h, n] => (all.find? (fun s => s.name == n)).map (fun s => { root := r, host := h, scope := s })
+    | [r, h, n, _] => (all.find? (fun s => s.name == n)).map (fun s =>
+        { root := r, host := if k == 3 then [] else h, scope := s })
+    | _ => none)
+
 end C06D
 open C06D
 
@@ -85,6 +105,30 @@ def dispatchC06 : List Str → Option (List Str)
         let g := all.filter (fun s => !(ns.any (fun x => x.scope.name == s.name)))
         let o := words order
         some ("ok".toList :: ([0, 1, 2, 3].flatMap (fun k => showState (g ++ ns.map (·.scope)) k (runN k g ns o))))
+      | _ => some ["bad-request".toList]
+    else if cmd == "c06.runb".toList || cmd == "c06.runbfixed".toList then
+      -- c06.runb <order> <root:host:name[:i] ...> <extra_mods names ...> <unreached scopes ...> <scope fields ...> :
+      -- the tables after `find_used_modules` (model `bindG` / `bindNsU`) and the ranklist loop; module
+      -- names as declared
+      match args with
+      | order :: nspec :: exts :: unreached :: fs =>
+        let all := parseScopes (cmd == "c06.runbfixed".toList) (fs.length + 1) fs
+        let ns0 := nestedOfK all nspec 0
+        let g := all.filter (fun s => !(ns0.any (fun x => x.scope.name == s.name)))
+        let es : List ExtMod := (words exts).map (fun n => { name := n })
+        let o := words order
+        some ("ok".toList :: ([0, 1, 2, 3].flatMap (fun k =>
+          let ns := nestedOfK all nspec k
+          showStateL (g ++ ns.map (·.scope)) k (runN k (bindG g es) (bindNsU g es (words unreached) ns) o))))
+      | _ => some ["bad-request".toList]
+    else if cmd == "c06.bind".toList then
+      -- c06.bind <name in the USE statement> <module names of the project> <names of extModules>
+      match args with
+      | [n, mods, exts] =>
+        let g : List Scope := (words mods).map (fun m =>
+          { name := m, isMod := true, defPub := true, pubNames := [], privNames := [], decls := [], uses := [] })
+        let es : List ExtMod := (words exts).map (fun n => { name := n })
+        some ["ok".toList, (bindName g es n).tag]
       | _ => some ["bad-request".toList]
     else if cmd == "c06.parse".toList then
       -- c06.parse <rest> : only flag, items
